@@ -359,6 +359,10 @@ def run_traces(ctx, n_models):
                 code_raised(ctx, ex, 'trace:model', vec)
                 fx.set_mode('xsec')
     fx.reset_all()
+    if not events:
+        if ctx.clauses.get('evaluates_without_error', {}).get('bad'):
+            return          # every model raised: already reported as violations
+        raise Machinery('no trace event was recorded')
     accepted, bad, res = validate_trace('Trace_KTable', 'Trace_KTable.cfg', events)
     ctx.add_tlc('trace-ktable', res, counts=False)
     if res.postcondition_false and not bad:
